@@ -37,14 +37,14 @@ ROWS = [
  ('C07', 'E2 × full product', '5 skeletons (k=2 on 1×1 else 1, × final newline) × 864 settings (−240 formatter/comparator combinations); `wrap_and_sort(_, None)`; 5 documents without paragraphs, 3 with comment lines inside values, 6 live documents with a field-less paragraph and 8 documents whose sort keys tie × 864; an indented comment in front of every line of k ≤ 1 layouts (2 skeletons) under line-preserving formatters; 8 control files × 24 settings and 150 orderings of 2–3 paragraphs out of 6 kinds (ties included) × 2 settings × {Control, Source/Binary} compared with the deb822-level reformatting under the documented formatter/order',
   'k=3 / 2 / 1', 'comparators depend on names/values only; CR-terminated documents are not in the quantifier (§4.3)'),
  ('C08', 'E2 + E3', '3 names × 18 values: 1 paragraph × 1–3 fields, 2–3 paragraphs × 1 field, the empty document; every printable ASCII name character × 3 positions × 4 values; edits depth 4 from 6 paragraphs', '+ 2×2 paragraphs, edits depth 6', 'continuation lines starting with `#` are outside the domain'),
- ('C09', 'E1', '21 classes to N=5; 20 tokens to 4; 72 fields with one token of 255 … 65537 characters; every ASCII and 14 non-ASCII characters × 15 prefixes × 8 suffixes; single-entry / single-relation readers compared with the field reader; every ordered pair of the three field readers back to back vs in isolation (strings to 4 symbols and every string with a `$`)', 'N=6; 6 tokens', '—'),
+ ('C09', 'E1', '21 classes to N=5; 20 tokens to 4; 72 fields with one token of 255 … 65537 characters; every ASCII and 14 non-ASCII characters × 22 prefixes × 8 suffixes; single-entry / single-relation readers compared with the field reader; every ordered pair of the three field readers back to back vs in isolation (strings to 4 symbols and every string with a `$`)', 'N=6; 6 tokens', '—'),
  ('C10', 'E2', '9 skeletons × {substvars off, on}: k=2 on ≤ 2 relations else 1 over 13 relation slots (3 names, 6 operators, 8 versions (epoch × upstream shape × revision), 6 arch lists, 8 profile lists, blanks inside brackets, line breaks between items …); full product of the relation parts (7 776) × every single whitespace deviation; 132 identifier-character cases',
   'k=4 / 3 / 2', 'lossy clause skipped for a line break inside a list (§7)'),
  ('C13', 'E2', "C10's fields; every field with ≤ 1 deviation also under each of the 16 Policy relationship field names through `Control` and `Source/Binary::wrap_and_sort` (2 settings); live reading of the result", 'k=4 / 3 / 2', 'ties between equal first names are not constrained (§4.3)'),
  ('C11', 'E3', '13 fixed + 5 constructor-built initial fields to depth 2 (+1 uncached); 8 layout templates × every single whitespace deviation to depth 1; ≈ 300 ops at a 2×2 field (9 relation operands, 6 entry operands incl. one that is == to existing content, 11 relation edits, pairs through one relation / one entry handle, `Entry::remove`); separators, returned values, `len`/`is_empty`',
   'depth 3 (+2); templates: double deviations depth 1, single deviations depth 2', 'field size bounded at 3 entries × 3 alternatives'),
  ('C12', 'E2 product', 'complete table 6 ops × 9 × 10 (pool with zero and non-zero epochs); nesting ≤ 3 entries × 1–3 alternatives; same-package alternatives; fields over three shared package names × 8 installed sets; lookup exactness probes; each on lossless trees of 5 provenances and lossy values of 2, and parsed from text with an empty entry in front / between all entries / behind', 'pool of 12 versions, 4 entries', '—'),
- ('C14', 'E2 product', '2 × 2 × 6 × 6 × 71 = 10 224 relations (each also through `RelationBuilder`, converted tree read live); fields ≤ 2 × ≤ 2 over 12, the empty value, 3 alternatives', '+ 3 entries × ≤ 2 over a 6-element subset', '—'),
+ ('C14', 'E2 product', '2 × 2 × 6 × 7 × 76 = 12 768 relations (up to 3 architectures and 4 profile groups) (each also through `RelationBuilder`, converted tree read live); fields ≤ 2 × ≤ 2 over 12, the empty value, 3 alternatives', '+ 3 entries × ≤ 2 over a 6-element subset', '—'),
  ('C15', 'E2 table', '146 pairs × values × 8 priors (14 for fields with an alias name; + sibling-accessor clause); all ordered setter pairs per view through re-read text AND on one live view (also + clear / + re-set); 77 reading rows incl. `add_source` / `add_binary`', 'same', 'table written by a sub-agent from the accessor inventory, triaged (§4.3)'),
  ('C16', 'E2', '32 structs (16 shapes + 3 with split attributes + 1 + 12 shipped), k=2 over all table values (incl. the empty string), 7 update priors (incl. repeated names, a case-variant foreign name, a built paragraph), back-ends compared after update, live read-back, `to_paragraph()` printed and re-read; 4 in-memory values per free-text field × 2 × 2 back-ends', 'k=3', '—'),
  ('C17', 'E2', 'patterns ≤ 3 tokens × paths ≤ 2 chars over 12/10 symbols, second alphabet (12 symbols) to 2 × 2; 6 481 copyright files × 6 licence sets × 6 paths, 7 layouts (header with licence, licence paragraphs before / between Files, no final newline, comment lines) on ≤ 1 Files paragraph; relaxed and file readers', 'patterns ≤ 4 / paths ≤ 3; second alphabet 3 × 3; layouts on ≤ 2 Files paragraphs; third Files paragraph from 8 configurations', 'regex compilation per `matches()` call dominates the time'),
